@@ -138,13 +138,13 @@ func checkC20(r *Run) {
 				if rec.Retraction {
 					s = "RETRACTION " + s
 				}
-				r.Log("  out %s", s)
+				r.SinkLog("  out %s", s)
 				got = append(got, s)
 				return nil
 			},
 			func(ctx execution.ProduceContext, msg execution.MetadataMessage) error {
 				s := "wm " + msString(msg.Watermark)
-				r.Log("  out %s", s)
+				r.SinkLog("  out %s", s)
 				got = append(got, s)
 				return nil
 			})
